@@ -115,7 +115,7 @@ def run_parsers(prop, tier):
                 nparts = 16
                 for j in range(nparts):
                     enum_jobs.append({"cmd": "custom", "method": "sweep_first_use",
-                                      "args": {"seed": base, "part": j, "nparts": nparts}, "id": "firstuse%d" % j, "must": True,
+                                      "args": {"seed": base, "part": j, "nparts": nparts, "full": tier != "quick"}, "id": "firstuse%d" % j, "must": True,
                                       "timeout": 600})
 
             def main_jobs():
@@ -236,7 +236,7 @@ def run_parsers(prop, tier):
                            "distinct = distinct (op-kind sequence incl. fired faults, workload sources); non-trivial = contains a re-run "
                            "on the same object, a second object, or a fired cancel")
             cov["first_use_interruption_sweep"] = {"cells": agg.stats["enum_first_use_cells"], "fault_fired_in": agg.stats["enum_first_use_fired"],
-                                                   "rule": "first run() of a process interrupted at the n-th line (n = 1..24, every 4th to 120, every 16th to 400) executed inside each of 8 parts of the library, alternately as cancellation / MemoryError; then re-run, fresh object, two more runs - each judged against the pristine reference"}
+                                                   "rule": "first run() of a process interrupted at the n-th line (n = 1..24, every 4th to 120, every 16th to 400) executed inside each of 8 parts of the library (quick tier: the four parsing-side parts only up to n = 24), alternately as cancellation / MemoryError; then re-run, fresh object, two more runs - each judged against the pristine reference"}
             cov["faults_fired"] = {k: agg.stats[k] for k in ("cancel_stmt_fired", "cancel_line_fired", "alloc_fault_fired", "alloc_fault_swallowed", "dump_fault_fired", "clock_jumps", "env_flip_evaluations")}
             cov["sensing"] = {"clock_reads_by_library": agg.stats["clock_reads_by_library"], "clock_slept_s": agg.stats["clock_slept_s"],
                               "env_reads_by_library_in_other_process": agg.stats["env_reads_by_library"],
